@@ -367,6 +367,7 @@ VOP(mz_msg)
 	std::string obj = a.str("obj", "nz");
 	std::string var = a.str("var", "");
 	bool xmode = method == "event::ExecuteCommand" && !a.str("xt", "").empty();
+	String createdName;
 
 	// ---- receiver
 	Endpoint::Ptr localEp = Endpoint::GetByName(t.pfx + "e" + a.str("recv") + a.str("rep", "a"));
@@ -476,10 +477,19 @@ VOP(mz_msg)
 		p->Set("update_v2", new Dictionary());
 	} else if (method == "config::UpdateObject") {
 		p->Set("type", "Host"); p->Set("zone", host->GetZoneName());
+		// zp=: the zone the MESSAGE names (e = none, x = a name that is no Zone object, <zone> = that zone of the forest)
+		std::string zp = a.str("zp", "");
+		if (zp == "e") p->Remove("zone");
+		else if (zp == "x") p->Set("zone", "mz-no-such-zone");
+		else if (!zp.empty()) p->Set("zone", String(ZName(t, zp)));
 		if (var == "new") {
 			String nm = t.pfx + "rt" + std::to_string(n);
+			createdName = nm;
 			p->Set("name", nm);
-			p->Set("config", "object Host \"" + nm + "\" {\n  check_command = \"mzdummy\"\n  enable_active_checks = false\n}\n");
+			// cz=: the zone the CONFIG TEXT gives the new object (- = none)
+			std::string cz = a.str("cz", "-");
+			p->Set("config", "object Host \"" + nm + "\" {\n  check_command = \"mzdummy\"\n  enable_active_checks = false\n"
+				+ (cz == "-" ? std::string() : "  zone = \"" + ZName(t, cz) + "\"\n") + "}\n");
 			p->Set("version", now + n);
 		} else {
 			p->Set("name", host->GetName()); p->Set("config", "");
@@ -490,8 +500,10 @@ VOP(mz_msg)
 	} else if (method == "config::DeleteObject") {
 		String nm = t.pfx + "del" + std::to_string(n);
 		Array::Ptr errors = new Array();
+		// var=zoned: the runtime object to be deleted lives in the zone of obj= (the message itself carries no zone)
+		std::string dz = (var == "zoned" && !host->GetZoneName().IsEmpty()) ? "  zone = \"" + host->GetZoneName().GetData() + "\"\n" : "";
 		if (!ConfigObjectUtility::CreateObject(Host::TypeInstance, nm,
-			"object Host \"" + nm + "\" {\n  check_command = \"mzdummy\"\n  enable_active_checks = false\n}\n", errors, nullptr))
+			"object Host \"" + nm + "\" {\n  check_command = \"mzdummy\"\n  enable_active_checks = false\n" + dz + "}\n", errors, nullptr))
 			throw std::runtime_error("mz_msg: cannot create runtime object for DeleteObject");
 		p->Set("type", "Host"); p->Set("name", nm);
 	} else if (method == "log::SetLogPosition") {
@@ -613,6 +625,16 @@ VOP(mz_msg)
 	if (xmode) {
 		auto lst = [](const std::set<long>& zs) { std::string r; for (long z : zs) { if (!r.empty()) r += ","; r += std::to_string(z); } return r.empty() ? std::string("-") : r; };
 		o << " xc=" << lst(xc) << " xd=" << lst(xd);
+	}
+	if (!a.str("cz", "").empty()) {
+		// zone attribute of the object config::UpdateObject was to create (- = no such object now / no zone)
+		std::string z = "-";
+		Host::Ptr created = createdName.IsEmpty() ? Host::Ptr() : Host::GetByName(createdName);
+		if (created && !created->GetZoneName().IsEmpty()) {
+			std::string zn = created->GetZoneName().GetData();
+			z = zn.compare(0, t.pfx.size() + 1, t.pfx + "z") == 0 ? zn.substr(t.pfx.size() + 1) : "?";
+		}
+		o << " cz=" << z;
 	}
 	if (hang) o << " HANG";
 	o << " # replies=" << replies;
